@@ -486,11 +486,30 @@ def c01(ctx):
     )
 
 
-PROPS = {"C01": c01, "C06": c06, "C15": c15, "C18": c18, "C12": c12, "C07": c07, "C09": c09, "C09": c09, "C10": c10, "C11": c11, "C13": c13, "C14": c14, "C05": c05, "C20": c20, "C16": c16, "C17": c17, "C04": c04, "C03": c03}
+def c08(ctx):
+    prog = ctx.prog("dev")
+    RT.rule_c08_structure(ctx, prog)
+    roots = [prog.method("CorrelationExt", "cov"), prog.method("CorrelationExt", "pearson_correlation")]
+    na = RL.rule_r8(ctx, prog, roots)
+    ctx.floor("R8", na, 5, "axis arguments in correlation.rs")
+    RL.rule_r1(ctx, prog, scope=lambda b: "correlation::" in b.key)
+    return dict(
+        level="other",
+        explanation="Only the exact-arithmetic FORMULA of C08 in matrix form (no roundoff bound, range or invariance is decided – those are "
+                    "numerical and static analysis cannot reach them): cov's single success value is (D·Dᵀ)/(n − ddof) elementwise with "
+                    "D = self − mean_axis(self, Axis(1)) broadcast along the observation axis, the same D on both sides of the product "
+                    "(so entry (i,j) is Σ_k D_ik D_jk and the matrix is symmetric by construction), n = len_of(self, Axis(1)); "
+                    "pearson_correlation = cov(ddof₀)/(σσᵀ) with σ = std_axis(self, Axis(1), ddof₀) and the same ddof₀ value in both; "
+                    "the observation axis is the documented constant everywhere (R8). Error behaviour on empty input is C17's (D6).",
+    )
+
+
+PROPS = {"C01": c01, "C08": c08, "C06": c06, "C15": c15, "C18": c18, "C12": c12, "C07": c07, "C09": c09, "C09": c09, "C10": c10, "C11": c11, "C13": c13, "C14": c14, "C05": c05, "C20": c20, "C16": c16, "C17": c17, "C04": c04, "C03": c03}
 
 
 # rules with a planted must-fire positive in /verif/fixtures, per property (run on every check)
 FIXTURE_RULES = {
+    "C08": ["R8", "R1"],
     "C01": ["R19", "R8", "R9", "R6"],
     "C03": ["R4", "R1"], "C04": ["R3", "R14", "R1", "R21"], "C05": ["R6", "R1"], "C06": ["R9", "R1", "R8", "R19"], "C07": ["R9", "R8", "R6", "R19"],
     "C09": ["R9", "R1", "R19", "R6"], "C10": ["R10", "R9", "R1", "R6"], "C11": ["R8", "R9"], "C12": ["R6", "R8"], "C13": ["R9"],
